@@ -121,7 +121,13 @@ func genQuery(r *Rng, s *jsonapi.Schema, o *Out) []string {
 			ps = append(ps, "fields["+tn()+"]="+list(fieldPool, r.IntN(4)))
 			o.stat("param.fields")
 		case 2:
-			ps = append(ps, "sort="+list(sortPool, r.IntN(5)))
+			rules := list(sortPool, r.IntN(5))
+			if r.chance(1, 5) { // the same valid rule several times: more rules than attributes
+				one := []string{"id", "name", "-n", "age", "-id"}[r.IntN(5)]
+				rules = strings.TrimSuffix(strings.Repeat(one+",", 2+r.IntN(5)), ",")
+				o.stat("param.sort-repeated")
+			}
+			ps = append(ps, "sort="+rules)
 			o.stat("param.sort")
 		case 3:
 			inc := list(incPool, r.IntN(4))
